@@ -538,6 +538,87 @@ pub mod cluster {
         accepting: bool,
         failed_keyspaces: &[String],
     ) -> ClusterState {
+        let host_filter: Option<&dyn HostFilter> = if accepting { None } else { Some(&RejectAll) };
+        build_state_with(
+            previous,
+            nodes,
+            keyspaces,
+            tablet_tables,
+            tablet_views,
+            host_filter,
+            !accepting,
+            failed_keyspaces,
+        )
+        .await
+    }
+
+    /// A host filter that accepts exactly the peers whose host id is in the set.
+    struct AcceptSet(std::collections::HashSet<Uuid>);
+    impl HostFilter for AcceptSet {
+        fn accept(&self, peer: &Peer) -> bool {
+            self.0.contains(&peer.host_id)
+        }
+    }
+
+    /// As `cluster_state_general`, with a per-peer host-filter verdict: the filter accepts exactly
+    /// the peers whose host id is in `accepted`. The state overrides of `previous`' nodes are NOT
+    /// reset; after building, the overrides are imposed from `nodes` as in the other builders.
+    #[allow(clippy::too_many_arguments)]
+    pub async fn cluster_state_filtered(
+        previous: Option<&ClusterState>,
+        nodes: &[NodeSpec],
+        keyspaces: &[KeyspaceSpec],
+        tablet_tables: &HashMap<String, Vec<String>>,
+        tablet_views: &HashMap<String, Vec<String>>,
+        failed_keyspaces: &[String],
+        accepted: &[Uuid],
+    ) -> ClusterState {
+        let filter = AcceptSet(accepted.iter().copied().collect());
+        build_state_with(
+            previous,
+            nodes,
+            keyspaces,
+            tablet_tables,
+            tablet_views,
+            Some(&filter),
+            false,
+            failed_keyspaces,
+        )
+        .await
+    }
+
+    /// `previous.new_with_updated_topology(peers, ..)` with the same per-peer filter and override
+    /// handling as `cluster_state_filtered`.
+    pub async fn cluster_refresh_topology_filtered(
+        previous: &ClusterState,
+        nodes: &[NodeSpec],
+        accepted: &[Uuid],
+    ) -> ClusterState {
+        let filter = AcceptSet(accepted.iter().copied().collect());
+        let peers = peers_of(nodes);
+        let node_config = node_config();
+        let state = previous
+            .new_with_updated_topology(peers, &node_config, Some(&filter))
+            .await;
+        for spec in nodes {
+            if let Some(node) = state.known_nodes.get(&spec.host_id) {
+                node.verif_override_state(spec.enabled, spec.connected);
+            }
+        }
+        state
+    }
+
+    #[allow(clippy::too_many_arguments)]
+    async fn build_state_with(
+        previous: Option<&ClusterState>,
+        nodes: &[NodeSpec],
+        keyspaces: &[KeyspaceSpec],
+        tablet_tables: &HashMap<String, Vec<String>>,
+        tablet_views: &HashMap<String, Vec<String>>,
+        host_filter: Option<&dyn HostFilter>,
+        reset_overrides: bool,
+        failed_keyspaces: &[String],
+    ) -> ClusterState {
         let peers = peers_of(nodes);
         let mut keyspaces: HashMap<_, _> = keyspaces
             .iter()
@@ -599,7 +680,6 @@ pub mod cluster {
             client_routes: None,
         };
         let node_config = node_config();
-        let host_filter: Option<&dyn HostFilter> = if accepting { None } else { Some(&RejectAll) };
         let state = match previous {
             None => ClusterState::new(metadata, &node_config, host_filter).await,
             Some(prev) => {
@@ -607,7 +687,7 @@ pub mod cluster {
                 // enabled; drop the overrides first so that unchanged nodes keep their objects
                 // (they are re-imposed on the new state below). With an accepting filter the
                 // overrides stay: nodes enabled by override take the accepted-node reuse arm.
-                if !accepting {
+                if reset_overrides {
                     for node in prev.known_nodes.values() {
                         node.verif_override_state(false, false);
                     }
